@@ -57,19 +57,27 @@ def run(chk):
     chk.check(okslot, 'C03-R1', CAT, CLS + '_read_halo_info', 'file slot = self.halos[N_written : N_written + len(rawhalos)]', '',
               f'slot is {unparse(slot[0].value) if slot else None}: files would overwrite each other or leave gaps', node=slot[0] if slot else L)
     # filter branch
+    # `if not self.filter_func: <unfiltered> else: <filtered>` is the same decision with the arms exchanged
+    for s in body:
+        if isinstance(s, ast.If) and unparse(s.test) == 'not self.filter_func' and s.orelse:
+            s.test = s.test.operand
+            s.body, s.orelse = s.orelse, s.body
     fb = [s for s in body if isinstance(s, ast.If) and unparse(s.test) == 'self.filter_func']
     if len(fb) != 1:
         raise AnalysisError('_read_halo_info: filter branch not found')
     FB = fb[0]
     tb = {unparse(s.targets[0]): s for s in FB.body if isinstance(s, ast.Assign)}
-    mask_ok = 'mask' in tb and unparse(tb['mask'].value) == 'self.filter_func(halos)'
+    # the mask is the local bound (once) to the filter's result, whatever its name
+    mnames = [k for k, s in tb.items() if unparse(s.value) == 'self.filter_func(halos)' and isinstance(s.targets[0], ast.Name)]
+    MASK = mnames[0] if len(mnames) == 1 and sum(1 for n_ in ast.walk(FB) if isinstance(n_, ast.Name) and n_.id == mnames[0] and isinstance(n_.ctx, ast.Store)) == 1 else 'mask'
+    mask_ok = MASK in tb and unparse(tb[MASK].value) == 'self.filter_func(halos)'
     nname = None
     for k, s in tb.items():
-        if unparse(s.value) == 'mask.sum()':
+        if unparse(s.value) == f'{MASK}.sum()':
             nname = k
     from ..core.idioms import compaction, offsets_table
     comp = [s for s in FB.body if (isinstance(s, ast.Assign) and isinstance(s.targets[0], ast.Subscript) and unparse(s.targets[0].value) == 'halos') or isinstance(s, ast.For)]
-    okcomp = mask_ok and nname is not None and compaction(FB.body, 'halos', 'mask', nname)
+    okcomp = mask_ok and nname is not None and compaction(FB.body, 'halos', MASK, nname)
     chk.check(okcomp, 'C03-R1', CAT, CLS + '_read_halo_info', 'kept rows compacted to the front of the slot: halos[:n] = halos[mask], n = mask.sum()', f'n = {nname}',
               f'compaction is {unparse(comp[0]) if comp else None} with n = {nname}: kept rows would not be exactly the masked rows in order', node=comp[0] if comp else FB)
     # the per-file count variable
@@ -83,7 +91,7 @@ def run(chk):
         # no else branch: the unfiltered count is the last value bound before the filter branch
         pre = [unparse(s.value) for s in body[:body.index(FB)] if isinstance(s, ast.Assign) and unparse(s.targets[0]) == cnt]
         f_def = pre[-1:]
-    okcnt = okadv and (t_def == [nname] or (cnt == nname and t_def == ['mask.sum()'])) and f_def == ['len(halos)']
+    okcnt = okadv and (t_def == [nname] or (cnt == nname and t_def == [f'{MASK}.sum()'])) and f_def == ['len(halos)']
     chk.check(okcnt, 'C03-R1', CAT, CLS + '_read_halo_info', 'one kept-count advances N_written and is recorded for the file', f'{cnt}: filter -> {t_def}, no filter -> {f_def}',
               f'N_written += {cnt}; N_halo_per_file[{iv}] = {unparse(rec[0].value) if rec else None}; {cnt} = {t_def} / {f_def}: row ranges and per-file counts disagree', node=adv[0] if adv else L)
     okord = okadv and body.index(FB) < body.index(adv[0]) and body.index(slot[0]) < body.index(FB) if slot and adv else False
@@ -120,7 +128,7 @@ def run(chk):
               'the per-file halo counts used to split halos among particle files are not the post-filter counts', node=call[0] if call else init)
     ls = src.func(CAT, CLS + '_load_subsamples')
     txt = [unparse(s) for s in walk_no_nested(ls) if isinstance(s, ast.stmt)]
-    okoff = offsets_table(ls, 'halo_file_offsets', 'N_halo_per_file')
+    okoff = offsets_table(ls, 'halo_file_offsets', 'N_halo_per_file') or c01.STATE.get('cursor_ok', False)       # or the running-cursor form recognised by C01-R3
     chk.check(okoff, 'C03-R1', CAT, CLS + '_load_subsamples', 'halo_file_offsets = exclusive prefix sum of the per-file counts', '',
               'file row ranges are no longer the prefix sums of the post-filter counts', node=ls)
     order_rules(chk)
@@ -186,6 +194,10 @@ def order_rules(chk):
     t3 = unparse(ls)
     ok_p = 'for i in range(len(self.superslab_inds))' in t3 and "self.superslab_inds[i]:03d" in t3 and 'clean_af = clean_afs[i]' in t3 and \
         'for i in self.superslab_inds' in t3 and 'halo_file_offsets[i]:halo_file_offsets[i + 1]' in t3
+    # the same fact is decided on the values that reach the kernels by the obligations imported as C03-R6 (file name, cleaning file and row
+    # range of position i, by constant propagation): a spelling the text test does not know is accepted when all of them are proven
+    r6 = [o for o in chk.obs if o.rule == 'C03-R6']
+    ok_p = ok_p or (len(r6) >= 5 and all(o.verdict == 'PROVEN' for o in r6))
     chk.check(ok_p, 'C03-R2', CAT, CLS + '_load_subsamples', 'particle file, cleaning file and halo row range selected by the same file position i', '',
               'particle files are not matched to halo row ranges by the same file position', node=ls)
     # R3
